@@ -52,7 +52,7 @@ const VALUES: [Option<&str>; 28] = [
     Some("x\n"),
 ];
 
-const LINES: [&str; 38] = [
+const LINES: [&str; 44] = [
     "a",
     "a b",
     "a b c",
@@ -92,6 +92,14 @@ const LINES: [&str; 38] = [
     "case x in (a|b) c;; a) b;; esac",
     "case a in esac",
     "for i in a; do case b in a) c;; esac; done",
+    // a command substitution after (or next to) an alias on the same line: the lexer cuts its text
+    // out of a buffer into which the replacement has been spliced
+    "a $(x)",
+    "a b $(x y) c",
+    "x; a $(b) $(c)",
+    "a && b $(x) || c",
+    "$(x) a",
+    "a \"$(x)\" b",
 ];
 
 // ------------------------------------------------------------------ refalias
@@ -165,6 +173,26 @@ fn tokenize(s: &str, inhibit: &BTreeSet<String>) -> Vec<T> {
             let c = cs[i];
             if c == '\\' && i + 1 < cs.len() && cs[i + 1] == '\n' {
                 i += 2;
+                continue;
+            }
+            // `$( … )`: part of the word up to the matching parenthesis (its text is parsed when the
+            // substitution is performed, not now)
+            if c == '$' && i + 1 < cs.len() && cs[i + 1] == '(' {
+                quoted = true;
+                let mut depth = 0;
+                while i < cs.len() {
+                    w.push(cs[i]);
+                    if cs[i] == '(' {
+                        depth += 1;
+                    } else if cs[i] == ')' {
+                        depth -= 1;
+                        if depth == 0 {
+                            i += 1;
+                            break;
+                        }
+                    }
+                    i += 1;
+                }
                 continue;
             }
             if matches!(c, ' ' | '\t' | '\n' | ';' | '|' | '&' | '(' | ')' | '<' | '>') {
